@@ -452,11 +452,17 @@ func rtUGeneric(a *aggregator, v *rtView) {
 	var bad []string
 	for _, f := range v.all {
 		instrsOf(f, func(in ssa.Instruction) {
-			cv, ok := in.(*ssa.Convert)
-			if !ok {
+			var cvX ssa.Value
+			var cv ssa.Value
+			switch y := in.(type) {
+			case *ssa.Convert:
+				cvX, cv = y.X, y
+			case *ssa.MultiConvert:
+				cvX, cv = y.X, y
+			default:
 				return
 			}
-			if _, isTP := cv.X.Type().(*types.TypeParam); !isTP {
+			if _, isTP := cvX.Type().(*types.TypeParam); !isTP {
 				return
 			}
 			n++
@@ -474,7 +480,7 @@ func rtUGeneric(a *aggregator, v *rtView) {
 					return
 				}
 			}
-			bad = append(bad, fmt.Sprintf("%s: %s(%s) in %s", v.in.srcPos(cv.Pos()), b.Name(), cv.X.Name(), f.Name()))
+			bad = append(bad, fmt.Sprintf("%s: %s(%s) in %s", v.in.srcPos(in.Pos()), b.Name(), cvX.Name(), f.Name()))
 		})
 	}
 	a.Decide(len(bad) == 0, "R-U-generic", "runtime/conversions of U-typed values", cfg, "",
